@@ -368,3 +368,70 @@ func TestC12Processes(t *testing.T) {
 	ev.CheckOne(t, "C12", "processes", c12ProcCase{Processes: ev.Scale(8, 64)}, checkC12Processes)
 	ev.CheckOne(t, "C12", "processes", c12ProcCase{Processes: ev.Scale(9, 65)}, checkC12Processes)
 }
+
+// ---- structural laws between the tables (extend the oracle to entries no vendored source lists) ----
+
+type c12CrossCase struct {
+	Law string `json:"law"`
+	Nr  int    `json:"nr"`
+}
+
+// checkC12Cross: (1) the x32 ABI consists of the "common" entries of the x86_64 table (numbers below 512, same
+// names) plus its own entries from 512 on; (2) since Linux 5.1 new system calls get the same number on every
+// architecture: numbers 403..511 carry the same name in every table that has them. Both are facts about the
+// kernel's syscall tables, independent of this repository; together with the vendored sources (which cover these
+// numbers for at least one table) they pin the entries that are newer than the vendored headers.
+func checkC12Cross(raw json.RawMessage) (ev.Result, error) {
+	var c c12CrossCase
+	if err := json.Unmarshal(raw, &c); err != nil {
+		return ev.Result{}, ev.Inconclusivef("bad case: %v", err)
+	}
+	switch c.Law {
+	case "x32-common":
+		name, ok := arch.X32.SyscallNumbers[c.Nr]
+		if !ok || c.Nr >= 512 {
+			return ev.Result{}, ev.Inconclusivef("no x32 entry %d below 512", c.Nr)
+		}
+		if other, ok := arch.X86_64.SyscallNumbers[c.Nr]; !ok || other != name {
+			return ev.Result{}, fmt.Errorf("x32 entry %d is %q, but the x86_64 table has %q there: x32 numbers below 512 are the common entries of the x86_64 table", c.Nr, name, other)
+		}
+	case "unified":
+		names := map[string][]string{}
+		for _, a := range oracle.AllTables {
+			if n, ok := spec.ArchInfo(a).SyscallNumbers[c.Nr]; ok {
+				names[n] = append(names[n], a)
+			}
+		}
+		if len(names) > 1 {
+			return ev.Result{}, fmt.Errorf("system call number %d (unified numbering since Linux 5.1) has different names in different tables: %v", c.Nr, names)
+		}
+	default:
+		return ev.Result{}, ev.Inconclusivef("unknown law %q", c.Law)
+	}
+	return ev.Result{Classes: []string{"cross-table-law:" + c.Law}, NonTrivial: true}, nil
+}
+
+func TestC12CrossTable(t *testing.T) {
+	ev.Register("C12", "cross-table", checkC12Cross)
+	n := 0
+	var nums []int
+	for nr := range arch.X32.SyscallNumbers {
+		if nr < 512 {
+			nums = append(nums, nr)
+		}
+	}
+	sort.Ints(nums)
+	for _, nr := range nums {
+		n++
+		if !ev.CheckOne(t, "C12", "cross-table", c12CrossCase{"x32-common", nr}, checkC12Cross) {
+			return
+		}
+	}
+	for nr := 403; nr < 512; nr++ {
+		n++
+		if !ev.CheckOne(t, "C12", "cross-table", c12CrossCase{"unified", nr}, checkC12Cross) {
+			return
+		}
+	}
+	ev.Exhaustive("C12", "cross-table laws (x32 common entries, unified numbers 403..511)", n)
+}
